@@ -358,6 +358,9 @@ func main() {
 	obls := map[string]*oblAgg{}
 	var cands []candidate
 	var incon []string
+	for f, why := range symx.Dropped {
+		incon = append(incon, fmt.Sprintf("harness file %s does not compile against this tree and was left out: %s", filepath.Base(f), why))
+	}
 	funcs := map[string]int64{}
 	stubs := map[string]int{}
 	var stats sym.Stats
@@ -935,6 +938,9 @@ func nativeReplay(pkgRel string, harnessDirs []string, cs []candidate) ([]replay
 			}
 			src := filepath.Join(dir, en.Name())
 			b, _ := os.ReadFile(src)
+			if _, gone := symx.Dropped[filepath.Join(repo, rel, "zz_verif_"+en.Name())]; gone && pkgName != "" {
+				continue // does not compile against this tree: left out of the native build as well
+			}
 			if pkgName == "" {
 				for _, l := range strings.Split(string(b), "\n") {
 					if strings.HasPrefix(l, "package ") {
@@ -942,6 +948,9 @@ func nativeReplay(pkgRel string, harnessDirs []string, cs []candidate) ([]replay
 						break
 					}
 				}
+			}
+			if _, gone := symx.Dropped[filepath.Join(repo, rel, "zz_verif_"+en.Name())]; gone {
+				continue
 			}
 			for _, m := range harnessFuncRe.FindAllStringSubmatch(string(b), -1) {
 				names = append(names, m[1])
